@@ -30,7 +30,7 @@ ASSUMPTIONS = [
     "half-unit accuracy is claimed (and checked) only under |x|*10^D < 2^51; outside it the double rounding of round()+format() can exceed half a unit, text equality with the exact model is still required",
 ]
 TRUSTED = ["CPython round()/format()/float()/int()/strftime/strptime are correctly rounded / as documented; the model computes the same results exactly and is compared with them on every case"]
-NOT_THEOREMS = ['stability clause (rewritten == written) for float fields in E notation and for F-notation floats whose decimals are reduced to fit (proved when the declared decimals fit: Props.C01.law_flt_F): render(parse(render x)) = render x is a hypothesis (RenderLaw, third clause) of Props.C01.line_stable, validated here by exact text equality with the model on every case; the read-back clause IS a theorem for every layout without date fields in Spec.C01.inDomain (Props.C01.readBack_of_inDomain)',
+NOT_THEOREMS = ['stability clause (rewritten == written) for float fields in E notation (F notation is proved, the decimals-dropping loop included: Props.C01.law_flt_F_gen, main_F): render(parse(render x)) = render x is a hypothesis (RenderLaw, third clause) of Props.C01.line_stable, validated here by exact text equality with the model on every case; the read-back clause IS a theorem for every layout without date fields in Spec.C01.inDomain (Props.C01.readBack_of_inDomain)',
                 
                 'Spec.C01.floatClauses (dialect, half-unit accuracy under |x|*10^D<2^51, maximal decimals): evaluated per case']
 EXHAUSTIVE = {"quick": False, "thorough": False}
@@ -240,14 +240,15 @@ def make_field(rng, pos, fam_out):
         n = rng.randrange(10 ** (digits - 1) if digits > 1 else 0, 10**digits)
         if digits < size and rng.random() < 0.4:
             n = -n
-        v = rng.choice([{"i": n}, {"i": n}, {"i": n}, None, {"i": 0}, codec.enc_val(float("nan"))])
+        v = rng.choice([{"i": n}, {"i": n}, {"i": n}, None, {"i": 0}, codec.enc_val(float("nan")), {"nat": True}])
         return codec.fd_int(size, pos), v
     if k == "lit":
         size = rng.randrange(1, 21)
         w = rng.randrange(0, size + 1)
         alpha = "abcdefXYZ0123456789-_/.,;:éñßÇ" + "   " + ("\xa0\u2003" if rng.random() < 0.1 else "")
         s = "".join(rng.choice(alpha) for _ in range(w))
-        v = rng.choice([{"s": codec.enc_str(s)}] * 4 + [None, {"s": []}])
+        # missing markers of every sort (a literal column taken from a DataFrame carries its holes as NaN / NaT)
+        v = rng.choice([{"s": codec.enc_str(s)}] * 5 + [None, {"s": []}, codec.enc_val(float("nan")), {"nat": True}])
         return codec.fd_lit(size, pos), v
     if k == "flt":
         fmt = rng.choice("FFFfEe")
@@ -264,7 +265,7 @@ def make_field(rng, pos, fam_out):
         else:
             d_fit = rng.randrange(0, dec + 1)
             size = max(1, f_width(x, d_fit, fmt) + rng.choice([0, 0, 0, 1, 2, -1]))
-        v = rng.choice([codec.enc_val(x)] * 6 + [None, codec.enc_val(float("nan"))])
+        v = rng.choice([codec.enc_val(x)] * 6 + [None, codec.enc_val(float("nan")), {"nat": True}])
         return codec.fd_flt(min(size, 40), pos, dec, fmt, sep), v
     # date
     nf = rng.choice([1, 1, 2, 3])
@@ -274,7 +275,7 @@ def make_field(rng, pos, fam_out):
 
     width = len(t.strftime(fmts[0]))
     size = width + rng.choice([0, 0, 1, 4])
-    v = rng.choice([codec.enc_val(t)] * 5 + [None, {"nat": True}])
+    v = rng.choice([codec.enc_val(t)] * 5 + [None, {"nat": True}, codec.enc_val(float("nan"))])
     return codec.fd_date(size, pos, fmts), v
 
 
